@@ -12,9 +12,11 @@ Representation.  One light record `Sk` for both container types: `mins` is the s
 `abunds` the abundance list aligned with it (`Vec<u64>`, resp. the values of the `BTreeMap` in key
 order — the tree keeps `abunds.keys() = mins`, which is part of C01).  The md5 cache is C13's and the
 tree's `current_max` field equals `max(mins)` (or 0) after every public call since the repair
-`cfc6bfc`; it is modelled as that derived value — except for a sketch made by the public builder
-without the field (and its clones), for which the section "sketches that were not made by `new` +
-insertions" at the end of the file carries the field explicitly (`Sk.addTc`, `Sk.removeTc`).  Where the two types differ (`add` with abundance 0,
+`cfc6bfc` (and, since `04873e6`, after `builder()…mins(..).build()`, whose default derives it from the
+hashes); it is modelled as that derived value — except for a sketch made by the public builder with
+an EXPLICIT `.current_max(x)` that is not its largest hash (and its clones), for which the section
+"sketches that were not made by `new` + insertions" at the end of the file carries the field
+explicitly (`Sk.addTc`, `Sk.removeTc`).  Where the two types differ (`add` with abundance 0,
 the shape of `merge`) there are two definitions selected by `Kind`.  u64 arithmetic is modelled on
 `Nat`: abundance sums are assumed not to overflow (the harness is built with overflow checks, an
 overflow would surface as `PANIC`).
@@ -467,11 +469,12 @@ def selectScaled (k : Kind) (sks : List Sk) (sel : Nat) : Except Err (List Sk) :
 /-! ### sketches that were not made by `new` + insertions
 
 The public `TypedBuilder` of both types takes the content ready-made (`mins`, `abunds`); the tree
-type's builder also exposes the cache `current_max` and leaves it at its default 0 when only `mins`
-is given, and `Clone` copies the field.  For such a sketch the cache is NOT `max(mins)`, so the code
-paths that read it (`add_hash_with_abundance`, `remove_hash`) are written here once more with the
-cache as an explicit argument/result; `Sk.addTc_fst` (Theorems/C03) shows that with the exact cache
-this is `Sk.addT`. -/
+type's builder also exposes the cache `current_max`: left alone it defaults to the largest of the
+given hashes (`mins.iter().next_back().copied().unwrap_or(0)`, /repo 04873e6), given explicitly it is
+taken as it is, and `Clone` copies the field.  For a sketch built with an explicit value that is not
+`max(mins)` the cache is stale, so the code paths that read it (`add_hash_with_abundance`,
+`remove_hash`) are written here once more with the cache as an explicit argument/result;
+`Sk.addTc_fst` (Theorems/C03) shows that with the exact cache this is `Sk.addT`. -/
 
 /-- the largest hash (`*self.mins.iter().next_back().unwrap_or(&0)`) -/
 def Sk.curMax (s : Sk) : Nat := s.mins.getLast?.getD 0
